@@ -493,3 +493,52 @@ Definition example_history : list (design_root * config * list key) :=
   [(ex_root1, ex_cfg, [(1, 100); (1, 100); (2, 100)]); (ex_root2, ex_cfg, [(1, 100)])].
 Definition example_history_output : list (list diag) :=
   [[(12, 12); (13, 13); (23, 23); (14, 14); (24, 24); (16, 16)]; []].
+
+(* ------------------------------------------------------------------------------------------ *)
+(* Mutation: outdated cache entries selected by the primary name only (the cache is keyed by    *)
+(* (library, primary name): same-named units of two libraries must not evict each other)        *)
+(* ------------------------------------------------------------------------------------------ *)
+Fixpoint cache_remove_name (n : N) (c : cache) : cache :=
+  match c with
+  | [] => []
+  | (k', v) :: r => if snd k' =? n then cache_remove_name n r else (k', v) :: cache_remove_name n r
+  end.
+Definition lint_nameonly (c : cache) (rt : design_root) (cfg : config) (analyzed : list key) : cache * list diag :=
+  let c := fold_left (fun c k => cache_remove_name (snd k) c) analyzed c in
+  let c := filter (fun kv => primary_exists rt (fst kv)) c in
+  let c := fold_left (lint_insert rt) analyzed c in
+  (c, emit cfg c).
+
+(* two libraries 1 and 3 (both not third party) with the same-named unit group 100 *)
+Definition ex_root_twin : design_root :=
+  fun l => if l =? 1 then Some ex_lib_full else if l =? 3 then Some ex_lib_full else None.
+Definition ex_cfg_twin : config := fun l => if l =? 1 then Some false else if l =? 3 then Some false else None.
+
+(* ------------------------------------------------------------------------------------------ *)
+(* Config::append (config.rs): layered configurations; the library table as an association list *)
+(* name -> is_third_party (file patterns abstracted); get_library = cm_get                      *)
+(* ------------------------------------------------------------------------------------------ *)
+Definition config_map : Set := list (N * bool).
+Fixpoint cm_get (m : config_map) (l : N) : option bool :=
+  match m with
+  | [] => None
+  | (k, v) :: r => if k =? l then Some v else cm_get r l
+  end.
+(* `*parent_library = library.clone()` when the name exists, `insert` otherwise *)
+Fixpoint cm_set (m : config_map) (l : N) (v : bool) : config_map :=
+  match m with
+  | [] => [(l, v)]
+  | (k, x) :: r => if k =? l then (k, v) :: r else (k, x) :: cm_set r l v
+  end.
+Definition config_append (self other : config_map) : config_map :=
+  fold_left (fun m kv => cm_set m (fst kv) (snd kv)) other self.
+(* mutation: a re-defined library keeps the is_third_party flag of the earlier configuration *)
+Fixpoint cm_set_keepflag (m : config_map) (l : N) (v : bool) : config_map :=
+  match m with
+  | [] => [(l, v)]
+  | (k, x) :: r => if k =? l then (k, x) :: r else (k, x) :: cm_set_keepflag r l v
+  end.
+Definition config_append_keepflag (self other : config_map) : config_map :=
+  fold_left (fun m kv => cm_set_keepflag m (fst kv) (snd kv)) other self.
+(* the `config` the linter sees *)
+Definition config_of (m : config_map) : config := cm_get m.
